@@ -11,7 +11,7 @@ import (
 )
 
 func init() {
-	register(&Prop{ID: "C12", Gen: genC12, Run: runEngOp, Timeout: 30 * time.Second})
+	register(&Prop{ID: "C12", Gen: genC12, Run: runEngOp, Timeout: 10 * time.Minute})
 }
 
 func genC12(r *Rand, n int, tier string, emit func(string)) {
